@@ -35,7 +35,7 @@ func vDerive(parent *vDerived, id string) *vDerived {
 	if vNonNeg {
 		vrt.Assume(x >= 0) // text encoders: keeps the sign of every number out of the path count
 	}
-	switch vrt.Choice(id+".op", 9) {
+	switch vrt.Choice(id+".op", 10) {
 	case 0:
 		d.log = parent.log.With(d.add("k"+id, x))
 	case 1:
@@ -57,6 +57,10 @@ func vDerive(parent *vDerived, id string) *vDerived {
 		f := Namespace("ns" + id)
 		d.ns = append(d.ns, "ns"+id)
 		d.log = parent.log.With(f, d.add("k"+id, x))
+	case 9:
+		// the context ends with a freshly opened namespace
+		d.ns = append(d.ns, "ns"+id)
+		d.log = parent.log.With(Namespace("ns" + id))
 	case 7:
 		d.log = parent.log.WithLazy(d.add("k"+id, x), d.add("j"+id, 7))
 	case 8:
@@ -307,7 +311,7 @@ func (s *vLineSink) Write(p []byte) (int, error) {
 }
 func (s *vLineSink) Sync() error { return nil }
 
-//verif: prop=C07 bounds="derivation programs of 2 steps (each: parent chosen among earlier loggers; op in {With 1 field, With 3 fields, WithLazy 1 field, WithLazy 2 fields, Named(empty|name), WithOptions(Fields), Sugar.With.Desugar, Sugar.WithLazy.Desugar, Namespace+field}), symbolic int64 values, 9 core kinds (recorder, observer, JSON, console, tee, sampler, hooked, increase-level, lazy); every logger logs once, forwards or backwards"
+//verif: prop=C07 bounds="derivation programs of 2 steps (each: parent chosen among earlier loggers; op in {With 1 field, With 3 fields, WithLazy 1 field, WithLazy 2 fields, Named(empty|name), WithOptions(Fields), Sugar.With.Desugar, Sugar.WithLazy.Desugar, Namespace+field, Namespace alone}), symbolic int64 values, 9 core kinds (recorder, observer, JSON, console, tee, sampler, hooked, increase-level, lazy); every logger logs once, forwards or backwards"
 func VC07Program2() { vContextProgram(2) }
 
 //verif: prop=C07 tier=thorough bounds="derivation programs of 3 steps, 9 core kinds"
